@@ -12,7 +12,7 @@ def family_gens():
     """optional per-family structured generators: checks/wire_gen_<fam>.py with
        gen_parse(rng, n) -> [op lines]   and   gen_build(rng, n) -> [op lines (new/push/set/show programs)]"""
     mods = []
-    for f in FAMILIES:
+    for f in FAMILIES + ["extra"]:
         try:
             mods.append(importlib.import_module("checks.wire_gen_" + f.lower()))
         except ImportError:
